@@ -40,6 +40,25 @@ def docOrderForest : List (Tree ν) → List ν
   | t :: ts => docOrder t ++ docOrderForest ts
 end
 
+mutual
+/-- specification of `xsl:strip-space`: the tree without the child nodes `s` marks (whitespace-only text nodes of
+elements whose whitespace is stripped) — "as if the nodes were not there" (XSLT 1.0 §3.4) -/
+def strip (s : ν → Bool) : Tree ν → Tree ν
+  | mk x as ks => mk x as (stripForest s ks)
+def stripForest (s : ν → Bool) : List (Tree ν) → List (Tree ν)
+  | [] => []
+  | t :: ts => if s t.self then stripForest s ts else strip s t :: stripForest s ts
+end
+
+mutual
+/-- `s` marks only leaves without attributes (text nodes), never the top node nor an attribute -/
+def StripOK (s : ν → Bool) : Tree ν → Prop
+  | mk x as ks => s x = false ∧ (∀ a ∈ as, s a = false) ∧ StripOKForest s ks
+def StripOKForest (s : ν → Bool) : List (Tree ν) → Prop
+  | [] => True
+  | t :: ts => (if s t.self then t.attrs = [] ∧ t.kids = [] else StripOK s t) ∧ StripOKForest s ts
+end
+
 /-- number of nodes (elements, attributes, text …) of the subtree -/
 def size (t : Tree ν) : Nat := (docOrder t).length
 
@@ -114,6 +133,22 @@ def next (pos : Loc ν) : Option (Loc ν) :=
   match pos.firstChild with
   | some c => some c
   | none => climb pos.ctx.length pos
+
+/-- the whole tree a cursor points into (undo the path back to the top) -/
+def rebuild : Tree ν → List (Frame ν) → Tree ν
+  | t, [] => t
+  | t, f :: rest => rebuild (.mk f.self f.attrs (f.lefts.reverse ++ t :: f.rights)) rest
+
+/-- StylesheetRoot.cpp `getKeyNode(context)`: the node whose key table answers.  For a source document it is
+`getOwnerDocument()`, for a result tree fragment the loop
+`for(;;) { if (type == DOCUMENT_FRAGMENT_NODE) break; currentNode = getParentOfNode(*currentNode); }` — in both
+cases the node of the context node's tree that has no parent.  `fuel` bounds the climb by the depth. -/
+def keyNode : Nat → Loc ν → Loc ν
+  | 0, z => z
+  | fuel + 1, z =>
+    match z.parent with
+    | none => z
+    | some p => keyNode fuel p
 
 end Loc
 
